@@ -114,7 +114,10 @@ func (c Codec) gorumsUnmarshal(b []byte, msg *Message) (err error) {
 	if err != nil {
 		return err
 	}
-	methodDesc := desc.(protoreflect.MethodDescriptor)
+	methodDesc, ok := desc.(protoreflect.MethodDescriptor)
+	if !ok {
+		return fmt.Errorf("gorums: %s is not a method", msg.Metadata.Method)
+	}
 
 	// get message name depending on whether we are creating a request or response message
 	var messageName protoreflect.FullName
